@@ -24,6 +24,7 @@ type HarnessRun struct {
 	OpaqueStrMax int
 	SkipInit     map[string]bool
 	RunInitFuncs map[string]bool
+	Body           func(x *Exec)
 	HashCollisions bool
 	PoolNondet     bool
 	NoMerge      bool
@@ -392,7 +393,11 @@ func (h *HarnessRun) runPath(sol *smt.Solver, trace []Decision) (pr pathResult) 
 			}
 		}
 	}()
-	x.call(h.Fn, nil, nil)
+	if h.Body != nil {
+		h.Body(x) // Tier 3: the harness is engine code driving the asm executor
+	} else {
+		x.call(h.Fn, nil, nil)
+	}
 	pr.outcome = "done"
 	if len(x.pending) == 0 || true {
 		// sample model of completed path (cheap: one query) only for the first few
